@@ -123,6 +123,9 @@ pub enum LexerErrorReason {
     /// The suffix for a floating point token is not a valid suffix
     FloatInvalidSuffix,
 
+    /// The digits of a numeric literal do not fit into 64 bits
+    LiteralTooLarge,
+
     /// A string literal wraps the end of a line (but does end before end of stream)
     StringWrapsLine,
 
@@ -156,6 +159,7 @@ impl CompileError for LexerError {
             LexerErrorReason::OtherTokenBytes => "internal lexer error",
             LexerErrorReason::EndOfStream => "unexpected end of stream",
             LexerErrorReason::FloatInvalidSuffix => "unexpected end of stream",
+            LexerErrorReason::LiteralTooLarge => "numeric literal is too large",
             LexerErrorReason::StringWrapsLine => "string literal not terminated at end of line",
             LexerErrorReason::StringWrapsFile => "string literal never terminates",
             LexerErrorReason::StringContainsInvalidCharacters => {
@@ -191,6 +195,16 @@ fn other_token_chars<T>(input: &[u8]) -> LexResult<'_, T> {
 /// Make an error when the end of stream was encountered while trying to lex a certain token
 fn end_of_stream<T>() -> LexResult<'static, T> {
     Err(LexErrorContext(&[], LexerErrorReason::EndOfStream))
+}
+
+/// Make an error for when the digits of a numeric literal overflow the value type
+fn literal_too_large<T>(input: &[u8]) -> LexResult<'_, T> {
+    Err(LexErrorContext(input, LexerErrorReason::LiteralTooLarge))
+}
+
+/// Append a digit to a value in the given base - or return none if the value does not fit
+fn push_digit(value: u64, base: u64, digit: u64) -> Option<u64> {
+    value.checked_mul(base)?.checked_add(digit)
 }
 
 /// Lex a token or return none
@@ -267,11 +281,14 @@ fn digit(input: &[u8]) -> LexResult<'_, u64> {
 
 /// Parse multiple decimal digits into a 64-bit value
 fn digits(input: &[u8]) -> LexResult<'_, u64> {
+    let start = input;
     let (mut input, mut value) = digit(input)?;
     while let Ok((next_input, d)) = digit(input) {
         input = next_input;
-        value *= 10;
-        value += d;
+        value = match push_digit(value, 10, d) {
+            Some(value) => value,
+            None => return literal_too_large(start),
+        };
     }
     Ok((input, value))
 }
@@ -326,11 +343,14 @@ fn digit_hex(input: &[u8]) -> LexResult<'_, u64> {
 
 /// Parse multiple hexadecimal digits into a 64-bit value
 fn digits_hex(input: &[u8]) -> LexResult<'_, u64> {
+    let start = input;
     let (mut input, mut value) = digit_hex(input)?;
     while let Ok((next_input, d)) = digit_hex(input) {
         input = next_input;
-        value *= 16;
-        value += d;
+        value = match push_digit(value, 16, d) {
+            Some(value) => value,
+            None => return literal_too_large(start),
+        };
     }
     Ok((input, value))
 }
@@ -371,11 +391,14 @@ fn digit_octal(input: &[u8]) -> LexResult<'_, u64> {
 
 /// Parse multiple octal digits into a 64-bit value
 fn digits_octal(input: &[u8]) -> LexResult<'_, u64> {
+    let start = input;
     let (mut input, mut value) = digit_octal(input)?;
     while let Ok((next_input, d)) = digit_octal(input) {
         input = next_input;
-        value *= 8;
-        value += d;
+        value = match push_digit(value, 8, d) {
+            Some(value) => value,
+            None => return literal_too_large(start),
+        };
     }
     Ok((input, value))
 }
